@@ -3,7 +3,7 @@ CONSTANTS
   KF_IntermediateAKCounts = FALSE
   MaxSigners = 3
   NestedChoices = 2
-  WithNegative = FALSE
+  WithNegative = TRUE
   MaxOps = 100
 INVARIANTS TypeOK EvalEqSat Monotone OnceOnly DeviationExact
 VIEW View
